@@ -46,6 +46,7 @@ FAILURES = {
     "unreadable": FARMERS,
     "overlong": FARMERS,
     "short": FARMERS,
+    "symlinked": ["none", "runner"],
     "wrong_names": ["runner", "harvester", "harvester_mem"],
     "missing_dims": ["runner", "harvester", "harvester_mem"],
     "conflict": ["harvester", "harvester_mem"],
@@ -162,6 +163,14 @@ def run_case(case):
             with open(p, "wb") as f:
                 f.write(data[:len(data) // 2] if case["victim"] % 2
                         else b"garbage" + data[7:])
+        if failure == "symlinked":
+            # the crop folder lives elsewhere (scratch storage) and is linked
+            # into the project directory: it cannot be removed with rmtree,
+            # so a reap that wants to clean up has to fail - without having
+            # removed anything
+            real_ = os.path.join(root, "scratch-store")
+            shutil.move(crops.crop_dir(root, "c12"), real_)
+            os.symlink(real_, crops.crop_dir(root, "c12"))
         if failure == "short":
             # a readable result holding fewer entries than its batch
             p = crops.result_path(root, "c12", victim)
@@ -190,6 +199,9 @@ def run_case(case):
         expect_fail = failure not in ("none",) and not partial_ok
         if failure == "incomplete" and allow_inc and B == 1:
             expect_fail = True      # nothing finished: no placeholder known
+        if failure == "symlinked":
+            # only a reap that is to clean up gets into trouble
+            expect_fail = (not allow_inc) if clean_up is None else clean_up
 
         # ---------------------------------------------------- first reap
         events = []
@@ -280,6 +292,9 @@ def run_case(case):
                     r_.var_names = names
                     r_.var_dims = var_dims
                     r_.var_coords = var_coords
+                elif failure == "symlinked":
+                    clean_up = False       # (tidy up by hand later)
+                    opts["clean_up"] = False
                 elif failure == "conflict":
                     opts["overwrite"] = True
                 elif failure == "save_dir_missing":
